@@ -77,6 +77,9 @@ SIGNIFICANT_STD = ("::eq", "::ne", "::lt", "::le", "::gt", "::ge", "::cmp", "::s
                    "::start_bound", "::end_bound", "Option::<T>::take", "Option::<T>::filter", "FnMut::call_mut", "::to_vec", "mem::transmute")
 
 
+PURE_ACCESSORS = ("::start_bound", "::end_bound")
+
+
 def _new_mode_enum(F, adt):
     from .normalize import pinned
     a = F.adts.get(adt)
@@ -130,6 +133,16 @@ def skeleton(body, rename=lambda s: s):
                 v = verdict_at(body.facts, body, s)
                 consts = tuple(a.get("int") for a in t["args"] if a["k"] == "const" and "int" in a)
                 out.append((("call", rename(n), consts, v), s))
+    # pure accessors evaluated back to back (`let (s, e) = (r.start_bound(), r.end_bound())`) have no order
+    pure = lambda it: it[0][0] == "call" and it[0][1].endswith(PURE_ACCESSORS)
+    i = 0
+    while i < len(out):
+        j = i
+        while j < len(out) and pure(out[j]):
+            j += 1
+        if j - i > 1:
+            out[i:j] = sorted(out[i:j], key=lambda it: it[0][1])
+        i = max(j, i + 1)
     return out
 
 
